@@ -276,7 +276,7 @@ func TestVerifC39Sealer(t *testing.T) {
 	}
 	var (
 		rtOK, rtWireOK, muts, mutsRejected, mutsBenignAccepted, mutsBenignRejected, panics int
-		winPast, winFuture, winNow, otherKey                                              int
+		winPast, winFuture, winNow, otherKey                                               int
 	)
 	perKey := map[string]int{}
 	viol := func(key, what string, w any) {
